@@ -550,6 +550,7 @@ func (d Driver) Run(c *core.Ctx) error {
 	stage(func() {
 		collect("cubic", tlc.Opts{Module: "Curves", Config: cfg("cubic", 3, c.Pick(400, 2000)), Seed: c.Seed + 1, Workers: 2})
 	})
+	stage(func() { collect("chain", tlc.Opts{Module: "Curves", Config: cfg("chain", 3, 0), Workers: 2}) })
 	stage(func() {
 		collect("arc", tlc.Opts{Module: "Curves", Config: cfg("arc", 3, c.Pick(150, 1000)), Seed: c.Seed + 2, Workers: 2})
 	})
